@@ -499,6 +499,22 @@ def verify_digit_pred(fn, facts):
 
 
 def eval_pure(fn, env, fuel=200):
+    """value of a small pure function on concrete arguments: the general CFG interpreter first (any expression form),
+    the original mini-evaluator as a fallback"""
+    try:
+        from ..minterp import Interp, Unsupported as _U, UndefinedBehaviour as _UB
+        try:
+            r_ = Interp(fn, getattr(fn, 'facts', None), max_steps=max(2000, fuel * 10)).run(dict(env), {})[0]
+            if r_ is not None:
+                return r_
+        except (_U, _UB):
+            pass
+    except ImportError:
+        pass
+    return _eval_pure_small(fn, env, fuel)
+
+
+def _eval_pure_small(fn, env, fuel=200):
     def ev(e):
         c = cval(e)
         if c is not None and strip(e).get('k') != 'ref':
